@@ -7,6 +7,7 @@ pub mod bddmodel;
 pub mod calls;
 pub mod engine;
 pub mod formula;
+pub mod fuzzentry;
 pub mod gen;
 pub mod known;
 pub mod oracle;
@@ -63,6 +64,42 @@ pub fn main_entry() {
         std::process::exit(2);
     }
     let id = args[1].clone();
+    if id == "fuzz-replay" {
+        // vcheck fuzz-replay <target> <file>
+        install_quiet_panic_hook();
+        known::load(&verif_root().join("known-findings.json"));
+        let target = args[2].clone();
+        let file = args.get(3).cloned().unwrap_or_default();
+        let data = std::fs::read(&file).unwrap_or_else(|e| {
+            eprintln!("cannot read {file}: {e}");
+            std::process::exit(2)
+        });
+        let prop = match target.as_str() {
+            "fz_parser" => "C08",
+            "fz_nogood" => "C18",
+            _ => "C07",
+        };
+        match fuzzentry::run(&target, &data) {
+            Ok(()) => {
+                println!("fuzz-replay {target} {file}: property holds on this input");
+                std::process::exit(0)
+            }
+            Err(m) => {
+                let prop = if m.contains("canonicity") || m.contains("not reduced") || m.contains("not ordered") || m.contains("duplicate nodes") {
+                    "C06"
+                } else if m.contains("paths(") || m.contains("models(") || m.contains("max_depth") || m.contains("var_dependencies") || m.contains("interpretations(") || m.contains("_var_impact") {
+                    "C13"
+                } else if m.contains("poll(") || m.contains("producer sent") || m.contains("draining") {
+                    "C19"
+                } else {
+                    prop
+                };
+                println!("fuzz-replay {target} {file}: {m}");
+                println!("VIOLATION property={prop} replay={file}");
+                std::process::exit(1)
+            }
+        }
+    }
     if id == "smoke-server" {
         smoke_server();
         return;
